@@ -1,6 +1,6 @@
 #!/bin/bash
-# run_thorough.sh [P] [pids...] : thorough tier for the given (default: every claimed) checks, P at a time; one line per check in /var/tmp/thorough.log, full output in /var/tmp/thorough/<pid>.out
+# run_thorough.sh [P] [pids...] : thorough tier for the given (default: every claimed) checks, P at a time; one line per check in /var/tmp/thorough.log, full output in /verif/.work/thorough/<pid>.out
 cd /verif; P=${1:-4}; shift
 pids=${@:-$(cat props/claimed.txt)}
-mkdir -p /var/tmp/thorough
-for pid in $pids; do echo $pid; done | xargs -P $P -I{} bash -c 's=$(date +%s); ./check {} --tier thorough > /var/tmp/thorough/{}.out 2>&1; rc=$?; e=$(date +%s); echo "{} rc=$rc $((e-s))s $(grep "^VIOLATION" /var/tmp/thorough/{}.out | head -1) $(grep "^\[" /var/tmp/thorough/{}.out | tail -1 | cut -c1-160)" >> /var/tmp/thorough.log'
+mkdir -p /verif/.work/thorough
+for pid in $pids; do echo $pid; done | xargs -P $P -I{} bash -c 's=$(date +%s); ./check {} --tier thorough > /verif/.work/thorough/{}.out 2>&1; rc=$?; e=$(date +%s); echo "{} rc=$rc $((e-s))s $(grep "^VIOLATION" /verif/.work/thorough/{}.out | head -1) $(grep "^\[" /verif/.work/thorough/{}.out | tail -1 | cut -c1-160)" >> /var/tmp/thorough.log'
